@@ -62,7 +62,7 @@ def history_worker(case):
     exits = []
     kills = list(case["kills"]) + [0]
     for seg, k in enumerate(kills):
-        cfg = dict(sampler=case["sampler"], model=case["model"], kwargs=case["kwargs"], outdir=out, logdir=logdir, seg=seg, kill_at=k)
+        cfg = dict(sampler=case["sampler"], model=case["model"], kwargs=case["kwargs"], outdir=out, logdir=logdir, seg=seg, kill_at=k, callback=bool(case.get("callback")))
         try:
             p = subprocess.run(["/venv/bin/python", "-m", "vlib.segment_run", json.dumps(cfg)], capture_output=True, text=True, timeout=case["seg_timeout"], env=env, cwd=ROOT)
             exits.append(p.returncode)
@@ -103,7 +103,20 @@ def analyse(case, res):
                     probs.append(("restore:iteration-differs", dict(segment=si, restored=start["it"], checkpointed=ck["it"])))
         elif si > 0 and any(e["ev"] == "ckpt" for evs0 in res["segs"][:si] for e in evs0):
             probs.append(("restore:checkpoint-existed-but-run-restarted", dict(segment=si)))
+        # times accounted in this segment can neither exceed the wall-clock time the segment has been running (double counting) nor go backwards (reset)
+        prev_t = {fld: start[fld] for fld in ("sampling_time", "training_time", "likelihood_evaluation_time")}
         for e in evs:
+            if e["ev"] in ("ckpt", "done") and "wall" in e and "wall" in start:
+                elapsed = e["wall"] - start["wall"]
+                for fld in ("sampling_time", "training_time", "likelihood_evaluation_time"):
+                    if fld not in e:
+                        continue
+                    stats["timing_checks"] = stats.get("timing_checks", 0) + 1
+                    if e[fld] - start[fld] > 1.02 * elapsed + 0.1:
+                        probs.append((f"accounting:{fld}-exceeds-elapsed-wall-time-of-the-segment", dict(segment=si, seq=e.get("seq"), accounted_in_segment=e[fld] - start[fld], wall_elapsed=elapsed)))
+                    if e[fld] < prev_t[fld] - 1e-9:
+                        probs.append((f"accounting:{fld}-went-backwards", dict(segment=si, seq=e.get("seq"), value=e[fld], previous=prev_t[fld])))
+                    prev_t[fld] = e[fld]
             if e["ev"] == "ckpt":
                 stats["checkpoints"] += 1
                 ckpts[e["seq"]] = e
@@ -168,7 +181,8 @@ def main():
             kills[0] = int(rng.integers(850, 1550))   # after the first iteration-boundary checkpoint (written at 800 points), before convergence
         if rng.random() < (0.15 if ins else 0.3):
             kills[0] = int(rng.integers(1, 120))   # during the initial draws / early uninformed phase
-        cases.append(dict(idx=i, sampler="ins" if ins else "std", variant=vname, model=model, kwargs=kw, schedule=sname, kills=kills,
+        # every fourth history checkpoints through a user checkpoint_callback and resumes through resume_data instead of the resume file
+        cases.append(dict(idx=i, sampler="ins" if ins else "std", variant=vname, model=model, kwargs=kw, schedule=sname, kills=kills, callback=(i % 4 == 1),
                           outdir=os.path.join(chk.scratch, f"hist-{i}"), seg_timeout=300, _timeout=300 * (nk + 1) + 60))
     if chk.replay_case:
         c = dict(chk.replay_case["case"])
@@ -183,7 +197,7 @@ def main():
     res = run_cases(cases, "checks.c12:history_worker", chk.scratch, nproc=chk.args.nproc, timeout=2000)
     allowed_total = {}
     for c, r in zip(cases, res):
-        small = {k: c[k] for k in ("idx", "sampler", "variant", "model", "kwargs", "schedule", "kills")}
+        small = {k: c[k] for k in ("idx", "sampler", "variant", "model", "kwargs", "schedule", "kills", "callback")}
         if "segs" not in r or r.get("timeout"):
             chk.note_inconclusive(f"history {c['idx']} ({c['variant']}): {str(r)[:400]}")
             chk.case_done()
@@ -196,6 +210,9 @@ def main():
         chk.count("restores_compared_" + c["sampler"], st["restores"])
         chk.count("state_fields_compared", st["fields_compared"])
         chk.count("histories_completed", 1 if st.get("done") else 0)
+        chk.count("timing_bounds_checked", st.get("timing_checks", 0))
+        if c.get("callback"):
+            chk.count("restores_compared_through_checkpoint_callback_and_resume_data", st["restores"])
         for k, v in st["allowed_kinds"].items():
             allowed_total[k] = allowed_total.get(k, 0) + v
         chk.case_done(ident=(c["variant"], c["schedule"], tuple(c["kills"]), c["kwargs"]["seed"]), nontrivial=st["restores"] > 0 and st.get("done", False),
@@ -218,9 +235,11 @@ def main():
     chk.finish("seeded kill/resume histories (1-3 kills quick, 1-5 thorough; kill = os._exit(9) at the K-th sampler-attributed likelihood point; checkpoint schedules every 1/7/50 "
                "iterations, every 0.2 s, on training) over 7 standard and 6 INS variants; every checkpoint is digested at pickling (generic object-graph walk) and compared "
                "field by field after restore inside the real run path; evaluation counts and timings are checked cumulatively against the user-boundary call log of every "
-               "segment; the C01/C03/C05 monitors stay armed in every segment and on the final result. Non-trivial = history with at least one compared restore that ran "
+               "segment; the accounted sampling / training / likelihood times may neither exceed the wall-clock time of their segment nor go backwards; every fourth history "
+               "checkpoints through a user checkpoint_callback and resumes through resume_data instead of the resume file; the C01/C03/C05 monitors stay armed in every segment and on the final result. Non-trivial = history with at least one compared restore that ran "
                "to completion; distinct by (variant, schedule, kill points, seed).",
-               require_observed=["restores_compared", "restores_compared_std", "restores_compared_ins", "state_fields_compared", "histories_completed", "kills_delivered"])
+               require_observed=["restores_compared", "restores_compared_std", "restores_compared_ins", "state_fields_compared", "histories_completed", "kills_delivered",
+                                 "timing_bounds_checked", "restores_compared_through_checkpoint_callback_and_resume_data"])
 
 
 if __name__ == "__main__":
